@@ -511,7 +511,7 @@ mod verif_inflate_core {
                 assert!(matches!(a, Action::End(TINFLStatus::HasMoreOutput)) && l1.counter == l.counter && l1.dist == l.dist, "OBL:arms.raw_store_out_of_space_keeps_pending_byte [C07 C08]");
             } else {
                 assert!(ob1.position() == pos + 1 && ob1.get_ref()[pos] == l.dist as u8 && l1.counter == l.counter - 1, "OBL:arms.raw_store_writes_the_pending_byte [C03]");
-                assert!(if l1.counter == 0 || l1.num_bits == 0 { matches!(a, Action::Jump(RawMemcpy1)) } else { matches!(a, Action::Jump(RawReadFirstByte)) }, "OBL:arms.raw_store_next_state [C03]");
+                assert!(if l1.counter == 0 || l1.num_bits == 0 { matches!(a, Action::Jump(RawMemcpy1)) } else { matches!(a, Action::Jump(RawReadFirstByte)) }, "OBL:arms.raw_store_next_state [C03 C05 C07]");
             }
         }
     }
@@ -824,6 +824,8 @@ mod verif_inflate_core {
     /// tree path returns a bare symbol): symbol part 0..=511 after masking, code length 1..=15.
     static LK_CALLS: ::core::sync::atomic::AtomicUsize = ::core::sync::atomic::AtomicUsize::new(0);
     static LK_LIMIT: ::core::sync::atomic::AtomicUsize = ::core::sync::atomic::AtomicUsize::new(usize::MAX);
+    static LK_LAST_SYM: ::core::sync::atomic::AtomicUsize = ::core::sync::atomic::AtomicUsize::new(usize::MAX);   // symbol of the most recent lookup
+    static LK_LAST_TABLE: ::core::sync::atomic::AtomicUsize = ::core::sync::atomic::AtomicUsize::new(0);          // address of the table it was made in
     fn model_lookup(this: &HuffmanTable, bit_buf: BitBuffer) -> (i32, u32) {
         let n = LK_CALLS.fetch_add(1, ::core::sync::atomic::Ordering::Relaxed);
         let code_len: u32 = kani::any();
@@ -831,6 +833,8 @@ mod verif_inflate_core {
         kani::assume(code_len >= 1 && code_len <= 15 && sym >= 0 && sym <= 511);
         // bounded stand-in: after LK_LIMIT symbols the stream says end-of-block
         let sym = if n >= LK_LIMIT.load(::core::sync::atomic::Ordering::Relaxed) { 256 } else { sym };
+        LK_LAST_SYM.store(sym as usize, ::core::sync::atomic::Ordering::Relaxed);
+        LK_LAST_TABLE.store(this as *const HuffmanTable as usize, ::core::sync::atomic::Ordering::Relaxed);
         let with_len: bool = kani::any();
         (if with_len { sym | ((code_len as i32) << 9) } else { sym }, code_len)
     }
@@ -1069,7 +1073,27 @@ mod verif_inflate_core {
         let left = ob.bytes_left();
         kani::assume(left >= 259 && inl >= 14); // the caller's guard (k_arm_decode_litlen: fast_loop_entered_only_with...)
         let maxp = pos + left;
+        let litlen_addr = &r.tables[LITLEN_TABLE] as *const HuffmanTable as usize;
+        let dist_addr = &r.tables[DIST_TABLE] as *const HuffmanTable as usize;
         let (st, state) = decompress_fast(&mut r, &mut in_iter, &mut ob, flags, &mut l, mask);
+        {
+            // the verdict follows from the LAST symbol looked up (every other exit continues the loop):
+            // RFC 1951: 256 ends the block, 286/287 (and the 9-bit padding values above) are not length symbols,
+            // distance symbols 30/31 (and above) are not distance symbols
+            let last = LK_LAST_SYM.load(::core::sync::atomic::Ordering::Relaxed);
+            let tab = LK_LAST_TABLE.load(::core::sync::atomic::Ordering::Relaxed);
+            let eob = tab == litlen_addr && last == 256;
+            let bad_len = tab == litlen_addr && last >= 286 && last != usize::MAX;
+            let bad_dist = tab == dist_addr && last > 29 && last != usize::MAX;
+            assert!((st == TINFLStatus::Done && state == BlockDone) == eob, "OBL:fast.end_of_block_symbol_and_only_it_hands_over_to_block_done [C03 C19 C07]");
+            assert!((st == TINFLStatus::Failed && state == InvalidLitlen) == bad_len, "OBL:fast.undefined_length_symbols_286_and_up_rejected_and_only_they [C04 C03 C07]");
+            assert!((st == TINFLStatus::Failed && state == InvalidDist) == bad_dist, "OBL:fast.undefined_distance_symbols_30_and_up_rejected_and_only_they [C04 C03 C07]");
+            if st == TINFLStatus::Done && state == DecodeLitlen {
+                assert!(ob.bytes_left() < 259 || in_iter.bytes_left() < 14, "OBL:fast.returns_to_the_careful_decoder_only_when_margins_are_gone [C05 C07]");
+            }
+            kani::cover!(eob, "COV:fast.end_of_block");
+            kani::cover!(bad_len && last == 286, "COV:fast.symbol_286");
+        }
         assert!(ob.position() >= pos && ob.position() <= maxp, "OBL:fast.never_writes_past_the_granted_window [C05 C08]");
         assert!(inv_l(&l), "OBL:fast.registers_well_formed [C05]");
         match st {
